@@ -30,6 +30,7 @@ unsigned long GE, GB, GPOS;
 char g_old;
 unsigned long GMK; /* ghost: offset of the watched byte inside the range handed to memmove / memset */
 _Bool G_MV;         /* ghost: the watched byte lies inside that range */
+_Bool G_KP;         /* ghost: the watched byte lies in the data block OUTSIDE the range written by memmove and must survive */
 unsigned long GCP;  /* ghost: position (in the data block) of the watched byte at the time of a memcpy into the block */
 _Bool G_CPK;        /* ghost: the watched byte exists at that time (== G_IN) */
 _Bool G_IN; /* ghost: the watched position lies inside the sequence (GE < used) on entry */
@@ -50,6 +51,14 @@ vf_fnptr g_qsort_cmp;
 #define FREE_F_OK (g_dp->free_f == NULL || g_dp->free_f == (vf_fnptr)ghost_cb)
 /* representation invariant on entry (wf_dynar) */
 #define WF_IN (__CPROVER_rw_ok(g_dp, sizeof(*g_dp)) && NUM_OK(SZMAX) && DATA_IN && FREE_F_OK)
+/* The units that move / clear byte ranges of symbolic length are checked once per element size SimGrid instantiates
+ * (harness define -DELM=4 / -DELM=8): with a symbolic elmsize the offsets are products of two 64-bit unknowns and the
+ * SAT back end does not finish. Their callees' contracts stay general (any elmsize <= ELMMAX). */
+#ifdef ELM
+#define ELM_OK (g_dp->elmsize == ELM)
+#else
+#define ELM_OK 1
+#endif
 #define IS_DYN(d) ((d) == g_dp)
 #define BYTE(e, b) (((char*)g_dp->data)[(e) * g_dp->elmsize + (b)])
 #define WATCH                                                                                                          \
@@ -82,6 +91,18 @@ vf_fnptr g_qsort_cmp;
    EQB(e, 9) && EQB(e, 10) && EQB(e, 11) && EQB(e, 12) && EQB(e, 13) && EQB(e, 14) && EQB(e, 15))
 #else
 #error "ELB must be 2, 3 or 4"
+#endif
+#ifdef ELM
+/* fixed element size: "all ELM bytes equal" is stated as one word comparison (56 guarded byte reads in one clause make
+ * symbolic execution of the clause itself take minutes); memcmp's assumed contract stays bytewise */
+#undef EQ_ELEM
+#if ELM == 4
+#define EQ_ELEM(e) (((const unsigned int*)g_dp->data)[e] == *(const unsigned int*)g_src)
+#elif ELM == 8
+#define EQ_ELEM(e) (((const unsigned long*)g_dp->data)[e] == *(const unsigned long*)g_src)
+#else
+#error "ELM must be 4 or 8"
+#endif
 #endif
 #define IS_MATCH(e) ((e) < g_dp->used && EQ_ELEM(e))
 #if SZB == 2
@@ -137,10 +158,10 @@ void* memcpy(void* dst, const void* src, size_t n)
 void* memmove(void* dst, const void* src, size_t n)
     __CPROVER_requires(n <= BYTES_MAX && __CPROVER_rw_ok(dst, n) && __CPROVER_r_ok(src, n) && IN_DATA(dst))
     __CPROVER_requires(!G_MV || (GMK < n && ((const char*)src)[GMK] == g_old))
-    __CPROVER_requires(!(G_IN && !G_MV) || (__CPROVER_r_ok(OBJ_BASE(dst), GPOS + 1) && OBJ_BASE(dst)[GPOS] == g_old && OUTSIDE(GPOS, dst, n)))
+    __CPROVER_requires(!G_KP || (__CPROVER_r_ok(OBJ_BASE(dst), GPOS + 1) && OBJ_BASE(dst)[GPOS] == g_old && OUTSIDE(GPOS, dst, n)))
     __CPROVER_assigns(__CPROVER_object_whole(dst))
     __CPROVER_ensures(__CPROVER_return_value == dst && (!G_MV || ((char*)dst)[GMK] == g_old))
-    __CPROVER_ensures(!(G_IN && !G_MV) || OBJ_BASE(dst)[GPOS] == g_old);
+    __CPROVER_ensures(!G_KP || OBJ_BASE(dst)[GPOS] == g_old);
 
 void* memset(void* p, int c, size_t n)
     __CPROVER_requires(n <= BYTES_MAX && __CPROVER_rw_ok(p, n) && -128 <= c && c <= 127 && IN_DATA(p))
@@ -218,7 +239,9 @@ void _check_populated_dynar(struct xbt_dynar_s* dynar)
 /* ---------------- storage helpers ------------------------------------------------------------------------------------ */
 void _xbt_dynar_resize(struct xbt_dynar_s* dynar, unsigned long new_size)
     __CPROVER_requires(NO_EXC && IS_DYN(dynar) && WF_IN && WATCH && new_size >= g_dp->size && new_size <= SZOUT)
-    __CPROVER_assigns(g_dp->size, g_dp->data)
+    /* conditional frame: a replaced contract must not havoc the data pointer when nothing is reallocated, else the
+     * caller loses the pointer's target (CBMC resolves dereferences through points-to sets, not through equalities) */
+    __CPROVER_assigns(new_size != g_dp->size : g_dp->size, g_dp->data)
     __CPROVER_frees(new_size != g_dp->size : g_dp->data)
 #ifdef H_resize /* checked with the body of xbt_realloc inlined (see check.json) */
     __CPROVER_ensures(OLD_BLOCK_RELEASED(new_size != OLD(g_dp->size))) /*@ resize_releases_old_block */
@@ -229,7 +252,7 @@ void _xbt_dynar_resize(struct xbt_dynar_s* dynar, unsigned long new_size)
 
 void _xbt_dynar_expand(struct xbt_dynar_s* dynar, unsigned long nb)
     __CPROVER_requires(NO_EXC && IS_DYN(dynar) && WF_IN && WATCH && nb <= SZMAX + 1)
-    __CPROVER_assigns(g_dp->size, g_dp->data)
+    __CPROVER_assigns(nb > g_dp->size : g_dp->size, g_dp->data)
     __CPROVER_frees(nb > g_dp->size : g_dp->data)
     __CPROVER_ensures(NO_EXC && g_dp->size >= nb && g_dp->size >= OLD(g_dp->size) && g_dp->size <= SZOUT)
     /*@ expand_makes_room_for_nb */
@@ -287,7 +310,7 @@ void* xbt_dynar_get_ptr(struct xbt_dynar_s* dynar, unsigned long idx)
 
 void* xbt_dynar_set_at_ptr(struct xbt_dynar_s* dynar, unsigned long idx)
     __CPROVER_requires(NO_EXC && (dynar == NULL || IS_DYN(dynar)) && WF_IN && WATCH && idx <= SZMAX && (!(g_dp->used <= GE && GE < idx) || GMK == GPOS - g_dp->used * g_dp->elmsize))
-    __CPROVER_assigns(vf_exc, g_dp->size, g_dp->data, g_dp->used DATA_TARGET)
+    __CPROVER_assigns(vf_exc, g_dp->used; idx + 1 > g_dp->size : g_dp->size, g_dp->data DATA_TARGET)
     __CPROVER_frees(idx + 1 > g_dp->size : g_dp->data)
     __CPROVER_ensures(ABORTS_IFF(dynar == NULL)) /*@ set_at_ptr_never_rejects_an_index */
     __CPROVER_ensures(vf_exc != 0 || g_dp->used == (idx >= OLD(g_dp->used) ? idx + 1 : OLD(g_dp->used)))
@@ -306,14 +329,16 @@ void* xbt_dynar_set_at_ptr(struct xbt_dynar_s* dynar, unsigned long idx)
 #define INSERT_IDX_OK(idx) ((idx) < 0 || (unsigned long)(idx) <= g_dp->used)
 /* link of the memmove ghosts with the watched byte: inserting at idx moves the bytes of elements idx.. */
 #define INSERT_MV(idx)                                                                                                 \
-  (G_MV == (G_IN && (idx) >= 0 && GE >= (unsigned long)(idx)) && (!G_MV || GMK == GPOS - (unsigned long)(idx)*g_dp->elmsize))
+  (G_MV == (G_IN && (idx) >= 0 && GE >= (unsigned long)(idx)) && (!G_MV || GMK == GPOS - (unsigned long)(idx)*g_dp->elmsize) && \
+   G_KP == (G_IN && (idx) >= 0 && GE < (unsigned long)(idx)))
 /* removing idx moves the bytes of elements idx+1.. */
 #define REMOVE_MV(idx)                                                                                                 \
   (G_MV == (G_IN && (idx) >= 0 && GE > (unsigned long)(idx)) &&                                                        \
-   (!G_MV || GMK == GPOS - ((unsigned long)(idx) + 1) * g_dp->elmsize))
+   (!G_MV || GMK == GPOS - ((unsigned long)(idx) + 1) * g_dp->elmsize) &&                                              \
+   G_KP == (G_IN && (idx) >= 0 && GE < (unsigned long)(idx))) /* the removed element itself (GE == idx) is overwritten */
 void* xbt_dynar_insert_at_ptr(struct xbt_dynar_s* dynar, int idx)
     __CPROVER_requires(NO_EXC && (dynar == NULL || IS_DYN(dynar)) && WF_IN && WATCH && INSERT_IDX_OK(idx) && INSERT_MV(idx))
-    __CPROVER_assigns(vf_exc, g_dp->size, g_dp->data, g_dp->used DATA_TARGET)
+    __CPROVER_assigns(vf_exc, g_dp->used; g_dp->used + 1 > g_dp->size : g_dp->size, g_dp->data DATA_TARGET)
     __CPROVER_frees(g_dp->used + 1 > g_dp->size : g_dp->data)
     __CPROVER_ensures(ABORTS_IFF(dynar == NULL || idx < 0))                    /*@ insert_aborts_iff_negative_index */
     __CPROVER_ensures(vf_exc != 0 || g_dp->used == OLD(g_dp->used) + 1)         /*@ insert_grows_by_one */
@@ -328,7 +353,7 @@ void* xbt_dynar_insert_at_ptr(struct xbt_dynar_s* dynar, int idx)
 void xbt_dynar_insert_at(struct xbt_dynar_s* dynar, int idx, void* src)
     __CPROVER_requires(NO_EXC && IS_DYN(dynar) && WF_IN && WATCH && INSERT_IDX_OK(idx) && INSERT_MV(idx) && src == g_src &&
                        G_CPK == G_IN && GCP == ((idx) >= 0 && GE >= (unsigned long)(idx) ? GPOS + g_dp->elmsize : GPOS))
-    __CPROVER_assigns(vf_exc, g_dp->size, g_dp->data, g_dp->used DATA_TARGET)
+    __CPROVER_assigns(vf_exc, g_dp->used; g_dp->used + 1 > g_dp->size : g_dp->size, g_dp->data DATA_TARGET)
     __CPROVER_frees(g_dp->used + 1 > g_dp->size : g_dp->data)
     __CPROVER_ensures(ABORTS_IFF(idx < 0))                              /*@ insert_at_aborts_iff_negative_index */
     __CPROVER_ensures(vf_exc != 0 || g_dp->used == OLD(g_dp->used) + 1) /*@ insert_at_grows_by_one */
@@ -358,15 +383,15 @@ void xbt_dynar_remove_at(struct xbt_dynar_s* dynar, int idx, void* object)
     __CPROVER_ensures(vf_exc == 0 || (UNCHANGED && g_calls == 0)) /*@ remove_rejected_changes_nothing */;
 
 int xbt_dynar_member(struct xbt_dynar_s* dynar, void* elem)
-    __CPROVER_requires(NO_EXC && IS_DYN(dynar) && WF_IN && WATCH && elem == g_src)
+    __CPROVER_requires(NO_EXC && IS_DYN(dynar) && WF_IN && ELM_OK && WATCH && elem == g_src)
     __CPROVER_assigns()
     __CPROVER_ensures(__CPROVER_return_value == 0 || __CPROVER_return_value == 1)
     __CPROVER_ensures(__CPROVER_return_value != 0 || !(GE < g_dp->used) || !EQ_ELEM(GE)) /*@ member_0_means_no_element_equal */
     __CPROVER_ensures(__CPROVER_return_value != 1 || ANYE(IS_MATCH))                      /*@ member_1_means_some_element_equal */;
 
 void* xbt_dynar_push_ptr(struct xbt_dynar_s* dynar)
-    __CPROVER_requires(NO_EXC && IS_DYN(dynar) && WF_IN && WATCH && !G_MV)
-    __CPROVER_assigns(vf_exc, g_dp->size, g_dp->data, g_dp->used DATA_TARGET)
+    __CPROVER_requires(NO_EXC && IS_DYN(dynar) && WF_IN && WATCH && !G_MV && G_KP == G_IN)
+    __CPROVER_assigns(vf_exc, g_dp->used; g_dp->used + 1 > g_dp->size : g_dp->size, g_dp->data DATA_TARGET)
     __CPROVER_frees(g_dp->used + 1 > g_dp->size : g_dp->data)
     __CPROVER_ensures(NO_EXC && g_dp->used == OLD(g_dp->used) + 1) /*@ push_ptr_grows_by_one */
     __CPROVER_ensures(g_dp->used <= g_dp->size && g_dp->size <= SZOUT && BLOCK_POST(OLD(g_dp->used) + 1 > OLD(g_dp->size)))
@@ -375,8 +400,8 @@ void* xbt_dynar_push_ptr(struct xbt_dynar_s* dynar)
     __CPROVER_ensures(!(GE < OLD(g_dp->used)) || BYTE(GE, GB) == g_old) /*@ push_ptr_keeps_elements */;
 
 void xbt_dynar_push(struct xbt_dynar_s* dynar, void* src)
-    __CPROVER_requires(NO_EXC && IS_DYN(dynar) && WF_IN && WATCH && src == g_src && !G_MV && G_CPK == G_IN && GCP == GPOS)
-    __CPROVER_assigns(vf_exc, g_dp->size, g_dp->data, g_dp->used DATA_TARGET)
+    __CPROVER_requires(NO_EXC && IS_DYN(dynar) && WF_IN && WATCH && src == g_src && !G_MV && G_KP == G_IN && G_CPK == G_IN && GCP == GPOS)
+    __CPROVER_assigns(vf_exc, g_dp->used; g_dp->used + 1 > g_dp->size : g_dp->size, g_dp->data DATA_TARGET)
     __CPROVER_frees(g_dp->used + 1 > g_dp->size : g_dp->data)
     __CPROVER_ensures(NO_EXC && g_dp->used == OLD(g_dp->used) + 1) /*@ push_grows_by_one */
     __CPROVER_ensures(g_dp->used <= g_dp->size && g_dp->size <= SZOUT && BLOCK_POST(OLD(g_dp->used) + 1 > OLD(g_dp->size)))
@@ -394,7 +419,8 @@ void* xbt_dynar_pop_ptr(struct xbt_dynar_s* dynar)
     __CPROVER_ensures(vf_exc == 0 || UNCHANGED);
 
 void xbt_dynar_pop(struct xbt_dynar_s* dynar, void* dst)
-    __CPROVER_requires(NO_EXC && IS_DYN(dynar) && WF_IN && WATCH && (dst == NULL || dst == g_buf) && CB_RESET && !G_MV)
+    __CPROVER_requires(NO_EXC && IS_DYN(dynar) && WF_IN && WATCH && (dst == NULL || dst == g_buf) && CB_RESET && !G_MV &&
+                       G_KP == (G_IN && GE + 1 < g_dp->used))
     __CPROVER_assigns(vf_exc, g_dp->used, __CPROVER_object_whole(g_buf), g_calls, g_last_arg, g_in_order DATA_TARGET)
     __CPROVER_ensures(ABORTS_IFF(OLD(g_dp->used) == 0))                                  /*@ pop_aborts_iff_empty */
     __CPROVER_ensures(vf_exc != 0 || (g_dp->used == OLD(g_dp->used) - 1 && SAME_BLOCK)) /*@ pop_shrinks_by_one */
@@ -403,9 +429,9 @@ void xbt_dynar_pop(struct xbt_dynar_s* dynar, void* dst)
     __CPROVER_ensures(vf_exc == 0 || UNCHANGED);
 
 void xbt_dynar_unshift(struct xbt_dynar_s* dynar, void* src)
-    __CPROVER_requires(NO_EXC && IS_DYN(dynar) && WF_IN && WATCH && src == g_src && G_MV == G_IN && (!G_MV || GMK == GPOS) && G_CPK == G_IN &&
+    __CPROVER_requires(NO_EXC && IS_DYN(dynar) && WF_IN && WATCH && src == g_src && G_MV == G_IN && (!G_MV || GMK == GPOS) && !G_KP && G_CPK == G_IN &&
                        GCP == GPOS + g_dp->elmsize)
-    __CPROVER_assigns(vf_exc, g_dp->size, g_dp->data, g_dp->used DATA_TARGET)
+    __CPROVER_assigns(vf_exc, g_dp->used; g_dp->used + 1 > g_dp->size : g_dp->size, g_dp->data DATA_TARGET)
     __CPROVER_frees(g_dp->used + 1 > g_dp->size : g_dp->data)
     __CPROVER_ensures(NO_EXC && g_dp->used == OLD(g_dp->used) + 1) /*@ unshift_grows_by_one */
     __CPROVER_ensures(g_dp->used <= g_dp->size && g_dp->size <= SZOUT && BLOCK_POST(OLD(g_dp->used) + 1 > OLD(g_dp->size)))
@@ -413,7 +439,7 @@ void xbt_dynar_unshift(struct xbt_dynar_s* dynar, void* src)
     __CPROVER_ensures(!(GE < OLD(g_dp->used)) || BYTE(GE + 1, GB) == g_old) /*@ unshift_shifts_everything_right */;
 
 void xbt_dynar_shift(struct xbt_dynar_s* dynar, void* dst)
-    __CPROVER_requires(NO_EXC && IS_DYN(dynar) && WF_IN && WATCH && (dst == NULL || dst == g_buf) && CB_RESET && G_MV == (G_IN && GE > 0) && (!G_MV || GMK == GPOS - g_dp->elmsize))
+    __CPROVER_requires(NO_EXC && IS_DYN(dynar) && WF_IN && WATCH && (dst == NULL || dst == g_buf) && CB_RESET && G_MV == (G_IN && GE > 0) && (!G_MV || GMK == GPOS - g_dp->elmsize) && !G_KP)
     __CPROVER_assigns(vf_exc, g_dp->used, __CPROVER_object_whole(g_buf), g_calls, g_last_arg, g_in_order DATA_TARGET)
     __CPROVER_ensures(ABORTS_IFF(OLD(g_dp->used) == 0))                                  /*@ shift_aborts_iff_empty */
     __CPROVER_ensures(vf_exc != 0 || (g_dp->used == OLD(g_dp->used) - 1 && SAME_BLOCK)) /*@ shift_shrinks_by_one */
@@ -503,7 +529,11 @@ _Bool nondet_bool(void);
 static void setup(void)
 {
   g_dp          = malloc(sizeof(*g_dp));
+#ifdef ELM
+  g_dp->elmsize = ELM;
+#else
   g_dp->elmsize = (nondet_ul() & (ELMMAX - 1UL)) + 1UL;
+#endif
   g_dp->size    = nondet_ul() & SZMAX;
   g_dp->used    = nondet_ul() & SZMAX;
   __CPROVER_assume(g_dp->used <= g_dp->size);
@@ -516,6 +546,7 @@ static void setup(void)
   GPOS = GE * g_dp->elmsize + GB;
   GMK  = nondet_ul() & (4UL * BYTES_MAX - 1UL);
   G_MV = nondet_bool();
+  G_KP = nondet_bool();
   GCP  = nondet_ul() & (4UL * BYTES_MAX - 1UL);
   G_CPK = nondet_bool();
   G_IN = GE < g_dp->used;
@@ -631,7 +662,7 @@ HARNESS(x, xbt_dynar_insert_at(g_dp, nondet_int(), g_src))
 #ifdef H_remove_at
 HARNESS(x, xbt_dynar_remove_at(dyn_or_null(), nondet_int(), buf_or_null()))
 #endif
-#ifdef H_member
+#ifdef H_member /* run as member_e4 / member_e8 (-DELM=4 / -DELM=8) */
 HARNESS(x, xbt_dynar_member(g_dp, g_src))
 #endif
 #ifdef H_push_ptr
